@@ -1,4 +1,4 @@
-CONSTANTS PipeLen = 2 StartN = {3} NRandom = 300 LongDepth = 6
+CONSTANTS PipeLen = 2 StartN = {3} NRandom = 400 LongDepth = 6 SingleN = {5}
 INIT Init
 NEXT Next
 INVARIANT Emitted
